@@ -32,5 +32,33 @@ CLAIMS["C14"] = dict(
 CLAIMS["C17"] = dict(
     text="Definedness and functional contracts on the sampling entry points: Covout.sample completes for every covout (with and without explicit interaction outcomes, sigma None or a number) and perturbs each outcome by sigma x draw, leaving outcomes untouched when there is no uncertainty; the pool initializer re-seeds the process-global generator from OS entropy (ghost state rng_reseeded), which is the contract form of 'workers do not inherit the same generator state'.",
     note="np.random.randn and np.random.seed are external (stubbed / stated semantics); fork copies the parent's generator state and fresh OS-entropy seeds are distinct (assumed); scheduling of samples to workers, Ensemble.run_sims (sciris parallelize) and the frames of ParameterSet.sample / ProgramSet.sample (sc.dcp) are not decided")
-NOT_APPLICABLE = {}
+_STRUCT = "decided on the AST of the real functions (re-read from /repo on every run): the clause is a statement about every path and does not depend on input values; it covers only the mechanism named, the remaining clauses of the property are listed as not decided in DESIGN.md"
+CLAIMS["C16"] = dict(
+    text="Definite-assignment obligation on ParameterSet.load_calibration: every name read by an exception handler is bound even when the exception is raised by the statement that would have bound it (so unknown entries are skipped, not crashed on). Spreadsheet and binary round trips are outside the technique.",
+    note=_STRUCT, technique="contract-based: structural (definite-assignment / frame) obligations decided on the real AST; replay on a real project")
+CLAIMS["C18"] = dict(
+    text="Definedness of every error path of 13 modules: each '%'-format and str.format message is given as many arguments as it has fields and .format is never called on an exception object, so the dedicated error (not TypeError/AttributeError) is what escapes; handlers read only bound names. Decided for all inputs because message arity does not depend on the input.",
+    note=_STRUCT + "; totality over all malformed workbooks and 'accepted implies runnable' depend on pandas/openpyxl and are not decided", technique="contract-based: definedness obligations on message construction and handlers, decided on the real AST")
+CLAIMS["C20"] = dict(
+    text="Order/subset independence of default aggregation in PlotData.__init__ as a loop-invariance obligation (the arguments that select the aggregation method are never assigned inside a loop, so the method applied to output k is a function of the argument and of output k only) and an ownership obligation on get_cascade_data / get_cascade_vals (an array bound to an element of another container is never updated in place).",
+    note=_STRUCT + "; sums/averages of the aggregated values, time aggregation numerics and matplotlib are not decided", technique="contract-based: loop-invariance and ownership (frame) obligations decided on the real AST; replays on the udt project")
+CLAIMS["C08"] = dict(
+    text="Inverse-pair structure of unlink/relink for every integration class: the set of attributes that unlink() replaces by ids is exactly the set relink() restores, and both chain to the base class; plus the frame clause of Program.get_capacity (works on a copy of the spending array).",
+    note=_STRUCT + "; determinism across processes, pickle/deepcopy internals and Result save/load are not decided", technique="contract-based: frame / inverse-pair obligations decided on the real AST plus the get_capacity frame clause (z3)")
+CLAIMS["C06"] = dict(
+    text="Call-site obligation for the dynamic/precompute classification: every recursive call of Parameter.set_dynamic passes the caller's progset on (the callee's contract needs it to see program-targeted dependencies), so a function of a program-targeted parameter is re-evaluated during integration.",
+    note=_STRUCT + "; Parameter.constrain/update and the order inside update_pars are not yet under contract", technique="contract-based: call-site precondition obligation decided on the real AST")
+CLAIMS["C09"] = dict(
+    text="The program gate: do_program_overwrite is exactly 'programs active and start_year <= t[ti] <= stop_year', and every statement of Model.update_pars that reads the program outcomes or coverages is dominated by 'if do_program_overwrite' -- so with the gate false the step reads no program state.",
+    note=_STRUCT + "; parameter scenarios (get_parset), stepped interpolation and the end-year extension are not decided", technique="contract-based: guard/dominance obligations decided on the real AST")
+CLAIMS["C13"] = dict(
+    text="Same gate obligations as C09 seen from inside the window: program outcomes are read only under the gate, whose definition is the documented closed interval; the conversion of the outcome (x source_popsize/dt, /dt) is not yet under contract.",
+    note=_STRUCT, technique="contract-based: guard/dominance obligations decided on the real AST")
+CLAIMS["C15"] = dict(
+    text="Exception safety of calibrate() w.r.t. the temporarily shortened end year: the original sim_end is saved, the statement right after the change is a try whose finally restores it, so an exception at ANY evaluation (every k) restores the caller's settings; together with the bounded sweep showing the sim_end setter is idempotent on doubles.",
+    note=_STRUCT + "; 'never worse' rests on sciris asd (external, not decided); the objective formula and copies made by optimize are not yet under contract", technique="contract-based: restore-on-every-exit obligation decided on the real AST + bounded sweep (labelled bounded) for setter idempotence")
+NOT_APPLICABLE = {
+    "C07": "not yet under contract (planned: fragment contract on the b-vector of initialize_compartments and Characteristic.update)",
+    "C10": "not yet under contract (planned: inverse pair Initialization.from_result / apply)",
+}
 NOTES = "Checks exit 0 (all obligations discharged), 1 (a registered obligation refuted: VIOLATION line, replay on real objects), 2 (undecided: unknown/unsupported, never reported as a violation), 3 (checker error: vacuity, zero obligations, internal error)."
